@@ -12,7 +12,8 @@ THEOREMS = ["HgVerif.Intern.intern_equal_keys_share", "HgVerif.Intern.intern_dis
             "HgVerif.Intern.addNode_id_lt", "HgVerif.Rank.kahn_free_irrelevant", "HgVerif.Sched.cycle_strictly_increasing",
             "HgVerif.Flow.disc_beh", "HgVerif.Flow.scanFrom_eq_denSeq", "HgVerif.Flow.sol_unique", "HgVerif.Flow.denSeq_sol",
             "HgVerif.Flow.cycle_eq_denSeq", "HgVerif.Flow.cycle_rank_independent", "HgVerif.Flow.fired_rank_independent",
-            "HgVerif.Flow.cycle_rank_independent_fun", "HgVerif.Flow.scanFrom_slots"] + ci.THEOREMS
+            "HgVerif.Flow.cycle_rank_independent_fun", "HgVerif.Flow.scanFrom_slots",
+            "HgVerif.Flow.cycle_view_independent", "HgVerif.Flow.next_of_views", "HgVerif.Flow.cycle_rel", "HgVerif.Flow.run_rank_independent"] + ci.THEOREMS
 CXX_TARGETS = ["hgv_engine"] + ci.CXX_TARGETS
 USES_EXTRACT = True
 RULE = ("each case holds ONE dataflow wired in 3-4 different admissible statement orders (random linear extensions), run one after "
@@ -26,11 +27,16 @@ TECHNIQUE = ("Lean 4 proof of the interning table (equal keys share, different k
              "order theorems + differential correspondence (the model ranks with the Kahn model and must match every statement "
              "order exactly) + cross-order monitor")
 LEVEL_TEXT = ("Kernel-checked for every key type and declaration list: equal keys denote one node, different keys different nodes, "
-              "sinks always get their own node (also identical ones). PARTIAL for the order half: equality of streams across "
-              "statement orders is the scan=Den theorem, not proved; it is decided per generated dataflow by running several "
-              "statement orders against each other and against the model.")
-LEVEL_NOTE = ("Trusted: Lean kernel; model tied by correspondence. The order-invariance statement is kept as Intern.OrderInvariant "
-              "(unproved) and enforced by the monitor.")
+              "sinks always get their own node (also identical ones); the partition of declarations into nodes is the same for "
+              "every admissible statement order (wireL_order_irrelevant). Kernel-checked for every flat dataflow program with arbitrary "
+              "node functions (reading only their producers and themselves, re-arming only in the future) run by the generic scan model "
+              "of graph.cpp: under any two topological ranks the whole simulation run has the same cycle times and ends with the same "
+              "state of every node (run_rank_independent; per cycle: same user-code runs, same states, same per-node schedule, same "
+              "cached next time). That the runtime's rank pass yields a topological rank is C01; that the compiled runtime is the scan "
+              "model is the correspondence: several statement orders of one generated dataflow are run against each other and the model.")
+LEVEL_NOTE = ("Trusted: Lean kernel; engine and interning models tied by correspondence. PARTIAL: the run-level theorem covers flat "
+              "dataflows (nested graphs, feedback and reference rebinding are covered by the cross-order runs only); 'equal "
+              "declarations MAY share' is not required by the monitors (a split is a model difference, not a violation).")
 
 
 def make_case(rng, idx, p, k):
